@@ -362,6 +362,67 @@ def run(ctx: Context, rep) -> None:
            where=lpinit.qualname, construct="self._threads = max(1, threads or 1)",
            message="the pool's size is the caller's thread count")
 
+    # the configured parallelism is never raised on the way: a function
+    # with a `file_parallelism` parameter may rebind it only to something
+    # bounded by it (min(..), `or 1`, //, -), never to max(.., n_shards)
+    PARAM_ = "file_parallelism"
+
+    def bounded(e: ast.AST) -> bool:
+        if isinstance(e, ast.Name):
+            return e.id == PARAM_
+        if isinstance(e, ast.Constant):
+            return type(e.value) is int and e.value <= 1
+        if isinstance(e, ast.Call) and isinstance(e.func, ast.Name) and \
+                not e.keywords and e.args:
+            if e.func.id == "min":
+                return any(bounded(a) for a in e.args)
+            if e.func.id == "max":
+                return all(bounded(a) for a in e.args)
+            if e.func.id == "int" and len(e.args) == 1:
+                return bounded(e.args[0])
+        if isinstance(e, ast.BoolOp):
+            return all(bounded(v) for v in e.values)
+        if isinstance(e, ast.IfExp):
+            return bounded(e.body) and bounded(e.orelse)
+        if isinstance(e, ast.BinOp) and isinstance(
+                e.op, (ast.FloorDiv, ast.Sub, ast.RShift)) and isinstance(
+                    e.right, ast.Constant) and type(e.right.value) is int \
+                and e.right.value >= (1 if isinstance(e.op, ast.FloorDiv)
+                                      else 0):
+            return bounded(e.left)
+        return False
+
+    n_par = 0
+    for fn_ in ctx.repo.all_functions():
+        if isinstance(fn_.node, ast.Lambda) or PARAM_ not in [
+                a.arg for a in fn_.node.args.args + fn_.node.args.kwonlyargs]:
+            continue
+        n_par += 1
+        for n in fn_.body_nodes():
+            tgt = val = None
+            if isinstance(n, ast.Assign) and any(
+                    isinstance(t, ast.Name) and t.id == PARAM_
+                    for t in n.targets):
+                tgt, val = n, n.value
+            elif isinstance(n, ast.AnnAssign) and isinstance(
+                    n.target, ast.Name) and n.target.id == PARAM_ and n.value:
+                tgt, val = n, n.value
+            elif isinstance(n, ast.AugAssign) and isinstance(
+                    n.target, ast.Name) and n.target.id == PARAM_:
+                tgt = n
+                val = ast.BinOp(left=ast.Name(id=PARAM_, ctx=ast.Load()),
+                                op=n.op, right=n.value)
+            elif isinstance(n, ast.NamedExpr) and n.target.id == PARAM_:
+                tgt, val = n, n.value
+            if tgt is None:
+                continue
+            rep.ob("C14.config", bounded(val), loc=fn_.loc(tgt),
+                   where=fn_.qualname, construct=short(tgt, 70),
+                   message="the read parallelism is rebound to a value not "
+                   "bounded by the caller's file_parallelism")
+    rep.ob("C14.config", n_par >= 4, loc=conc.loc(), where="sedpack.io",
+           construct=f"{n_par} function(s) take file_parallelism; none raises it",
+           message="functions with the parallelism parameter scanned")
     from sa.rules.c13 import check_consumer
     check_consumer(ctx, rep, "C14.inflight")
     rep.rule(
@@ -376,6 +437,52 @@ def run(ctx: Context, rep) -> None:
     rep.rule("C14.release", "LazyPool.__exit__ calls finish_and_reset "
              "unconditionally, first")
     check_exit_resets(ctx, rep, "C14.release")
+    # typestate of the native iterator handle: Python reference counting
+    # does not release the Rust side (STATIC_ITERATORS keeps the worker
+    # threads and their read-ahead alive), so a live handle is only dropped
+    # or replaced after its __exit__ ran
+    rep.rule(
+        "C14.rust-release",
+        "in RustGenerator every store to the handle field that can execute "
+        "while a handle is live (CFG specialised on `handle is not None`) is "
+        "preceded on every path by handle.__exit__(...)")
+    from sa.cfg import TRUTHY as _T
+    rg = ctx.repo.cls(f"{C.ITER_MOD}:RustGenerator")
+    # the handle field: the attribute assigned from _sedpack_rs.RustIter(...)
+    handle = None
+    for m in rg.methods.values():
+        for n in m.body_nodes():
+            if isinstance(n, (ast.Assign, ast.AnnAssign)) and isinstance(
+                    n.value, ast.Call) and (dotted(n.value.func) or "").endswith(
+                        "RustIter"):
+                t = n.targets[0] if isinstance(n, ast.Assign) else n.target
+                handle = dotted(t)
+    if handle is None or not handle.startswith("self."):
+        raise AnalysisError("C14.rust-release: RustIter handle field not found")
+    n_st = 0
+    for m in rg.methods.values():
+        if m.qualname.endswith("__init__") or isinstance(m.node, ast.Lambda):
+            continue
+        mcfg = ctx.cfg(m, {handle: _T})
+        stores = [n for n in mcfg.find(lambda n: n.kind == "stmt") if isinstance(
+            n.ast, (ast.Assign, ast.AnnAssign)) and any(
+                dotted(t) == handle for t in (
+                    n.ast.targets if isinstance(n.ast, ast.Assign)
+                    else [n.ast.target]))]
+        exits = mcfg.calls(lambda c: isinstance(c.func, ast.Attribute) and
+                           c.func.attr == "__exit__" and
+                           dotted(c.func.value) == handle)
+        for s in stores:
+            n_st += 1
+            leak = mcfg.always_before(exits, [s], normal_only=True)
+            rep.ob("C14.rust-release", not leak, loc=m.loc(s.ast),
+                   where=m.qualname, construct=short(s.ast, 60),
+                   message="a live native iterator is dropped / replaced "
+                   "without __exit__: its worker threads and read-ahead stay "
+                   "registered on the Rust side",
+                   path=mcfg.describe_path(mcfg.path_to(s, avoiding=exits))
+                   if leak else "")
+    rep.floor("C14.rust-release", n_st, 1, "stores to the handle outside __init__")
 
 
 
@@ -383,6 +490,15 @@ _IT = "src/sedpack/io/itertools/itertools.py"
 _DI = "src/sedpack/io/dataset_iteration.py"
 _LPF = "src/sedpack/io/itertools/lazy_pool.py"
 SELFTESTS = [
+    dict(rule="C14.rust-release", name="handle-dropped-without-exit", expect="fire", path=_DI,
+         old="        yield from self._single_iter()\n        while self._repeat:",
+         new="        self._rust_iter = None\n        yield from self._single_iter()\n        while self._repeat:"),
+    dict(rule="C14.config", name="parallelism-raised-to-shard-count", expect="fire", path=_DI,
+         old="        with RustGenerator(\n                dataset=self,",
+         new="        if shards:\n            file_parallelism = max(file_parallelism, shards)\n        with RustGenerator(\n                dataset=self,"),
+    dict(rule="C14.config", name="parallelism-lowered-to-shard-count-twin", expect="silent", path=_DI,
+         old="        with RustGenerator(\n                dataset=self,",
+         new="        if shards:\n            file_parallelism = min(file_parallelism, shards)\n        with RustGenerator(\n                dataset=self,"),
     dict(rule="C14.lazy", name="list-in-helper", expect="fire", path=_IT,
          old="    # Otherwise the first elements of a list would be iterated multiple times.\n    iterable = iter(iterable)\n\n    # Fill the buffer.\n    buffer: list[T] = []\n    for _, item in zip(range(buffer_size), iterable):",
          new="    iterable = iter(list(iterable))\n\n    # Fill the buffer.\n    buffer: list[T] = []\n    for _, item in zip(range(buffer_size), iterable):"),
